@@ -9,6 +9,8 @@ Design level: TLC proves HistoryIndependent, SpacesAgree, RoundTrip, OnlyFittedT
 Binding C: TLC behaviours (every history of length 3 over a reduced alphabet + random simulation
        over the full alphabet) replayed on a real NestleOptimizer over a real TransmissionModel and an
        ArraySpectrum with a fitting parameter; the projected state is compared after every call.
+       "Preset" histories: every subset of the parameters made the fitted set (only the observation's
+       parameter, none, all ...) x one optional setter / set_prior x compile x update / write-back / compile.
 Binding B: seeded random call sequences (wider argument domains) recorded from the real object and
        validated call by call by Trace_Optimizer.tla; canary.
 """
@@ -21,6 +23,7 @@ from .. import fx_optimizer as fx
 CLAUSES = ('unknown_is_error', 'known_is_accepted', 'views_readable', 'fit_names', 'fit_values',
            'fit_boundaries', 'fit_priors', 'derived_names', 'values', 'other_parameters_untouched')
 FULL = ('compile_params', 'update_model', 'write_back')     # calls after which the whole set-up is compared
+OBS_PARAMS = ('offset',)     # the observation's fitting parameters (MC_Optimizer.tla: MCObsParams)
 NEED = ('SetPrior', 'EnableDerived', 'DisableDerived', 'Compile', 'WriteBack', 'Unknown', 'UpdateCall')
 
 
@@ -35,7 +38,22 @@ def history_class(hist, k):
         since.append(h['op'])
     tags = sorted(set(since) & {'set_boundary', 'set_factor_boundary', 'set_mode', 'set_prior'}) \
         if op in ('compile_params', 'write_back', 'update_model') and compiled_before else []
-    return '%s:%s:%s' % (op, 'recompile' if compiled_before else 'first', '+'.join(tags) or '-')
+    cls = '%s:%s:%s' % (op, 'recompile' if compiled_before else 'first', '+'.join(tags) or '-')
+    pre = [h for h in hist[:k + 1] if h['op'] == 'preset']
+    if pre:
+        cls += ':fitted=%s:%s' % (fitted_kind(pre[-1]['on']),
+                                  'user-prior' if any(h['op'] == 'set_prior' for h in hist[:k + 1]) else 'no-user-prior')
+    return cls
+
+
+def fitted_kind(on):
+    """Class of a fitted set: none / observation parameters only / model parameters only / both."""
+    obs = [p for p in on if p in OBS_PARAMS]
+    if not on:
+        return 'none'
+    if len(obs) == len(on):
+        return 'observation-only'
+    return 'model+observation' if obs else 'model-only'
 
 
 def replay_behaviour(ctx, hist, source, store=True):
@@ -45,7 +63,10 @@ def replay_behaviour(ctx, hist, source, store=True):
     for k, ev in enumerate(hist):
         exp = ev['post']
         psp = [f['psp'] for f in prev['fit']]
-        raised = real.apply(ev, psp=psp)
+        if ev['op'] == 'preset':       # macro step: enable_fit / disable_fit for every parameter
+            raised = any([real.apply(dict(op='enable_fit' if p in ev['on'] else 'disable_fit', p=p)) for p in fx.PARAMS])
+        else:
+            raised = real.apply(ev, psp=psp)
         got = real.project(raised)
         bad, detail = fx.compare(exp, got, full=ev['op'] in FULL)
         cls = history_class(hist, k)
@@ -89,11 +110,23 @@ def random_trace(rng, tid, length):
     real = fx.build()
     events = [dict(tid=tid, step=-1, op='init')]
     nfit = 0
+    # flavour of the trace: one in three starts by making a random subset the fitted set (often only the
+    # observation's parameter, or nothing) and half of those never call set_prior
+    pre = []
+    no_prior = False
+    if rng.random() < 0.34:
+        on = rng.choice([['offset'], ['offset'], [], [p for p in fx.PARAMS if rng.random() < 0.5]])
+        pre = [dict(op='enable_fit' if p in on else 'disable_fit', p=p) for p in fx.PARAMS] + [dict(op='compile_params')]
+        no_prior = rng.random() < 0.5
     for step in range(length):
         r = rng.random()
         p = rng.choice(fx.PARAMS)
         ev = None
-        if r < 0.10:
+        if pre:
+            ev = pre.pop(0)
+        elif no_prior and 0.42 <= r < 0.52:
+            ev = dict(op='compile_params')
+        elif r < 0.10:
             ev = dict(op='enable_fit', p=p)
         elif r < 0.16:
             ev = dict(op='disable_fit', p=p)
@@ -221,7 +254,7 @@ def run(ctx):
                     '2 update exponents, histories of <= 4 calls') if q else
                    ('3 model + 1 observation parameters, 3 bound pairs, 2 factor pairs, 4 priors, 2 update exponents, '
                     'histories of <= 5 calls'),
-        behaviours='all histories of 3 calls over a reduced alphabet + %d simulated behaviours of 14 calls over the full alphabet' % (300 if q else 3000),
+        behaviours='all histories of 3 calls over a reduced alphabet + 1200 preset histories (all 16 fitted subsets) + %d simulated behaviours of 14 calls over the full alphabet' % (300 if q else 3000),
         traces='%d recorded call sequences of %d calls' % ((150, 25) if q else (1500, 30)))
     ctx.assumptions = [
         'all linear quantities are powers of ten (exponents in the spec); float log10/10** are exact to 1e-12 on them',
@@ -235,6 +268,8 @@ def run(ctx):
     for cfg, inv in (('a', 'HistoryIndependent'), ('a2', 'DefaultsFollowSettings'), ('b', 'SpacesAgree'),
                      ('b2', 'RoundTrip'), ('c', 'KnownIsAccepted')):
         ctx.expect_refuted('as-built-%s' % cfg, 'MC_Optimizer', 'MC_Optimizer_asbuilt_%s.cfg' % cfg, inv)
+    # priors of the observation's parameters reaching the table only when the model pass left something in it
+    ctx.expect_refuted('obs-priors-lost', 'MC_Optimizer', 'MC_Optimizer_asbuilt_d.cfg', 'ViewsReadable')
     # ---- binding C: exhaustive short histories
     res = run_tlc('MC_Optimizer', 'EX_Optimizer_%s.cfg' % ctx.tier, workers=1)
     ctx.add_tlc('export-histories', res, counts=False)
@@ -246,6 +281,26 @@ def run(ctx):
     for b in behs:
         replay_behaviour(ctx, b['h'], 'export')
     nb = len(behs)
+    # ---- binding C: preset histories (every fitted subset, incl. observation parameters only / none)
+    res = run_tlc('MC_Optimizer', 'EX_Optimizer_preset.cfg', workers=1)
+    ctx.add_tlc('export-preset-histories', res, counts=False)
+    if res.violated:
+        raise Machinery('preset export config violated %s' % res.violated)
+    pres = res.tagged('BEH')
+    if not q:
+        pass
+    kinds = {}
+    for b in pres:
+        h = b['h']
+        replay_behaviour(ctx, h, 'preset')
+        key = (fitted_kind(h[0]['on']), any(x['op'] == 'set_prior' for x in h), h[-1]['op'])
+        kinds[key] = kinds.get(key, 0) + 1
+    for fk in ('none', 'observation-only', 'model-only', 'model+observation'):
+        for last in ('update_model', 'write_back', 'compile_params'):
+            if not kinds.get((fk, False, last)) or not kinds.get((fk, True, last)):
+                raise Machinery('preset histories do not cover fitted=%s x set_prior yes/no x %s' % (fk, last))
+    nb += len(pres)
+    ctx.note('binding C: %d preset histories (fitted subset x setter/set_prior/compile x compile x update/write-back/compile)' % len(pres))
     # ---- binding C: simulation
     nsim = 300 if q else 3000
     res = run_tlc('MC_Optimizer', 'SIM_Optimizer.cfg', simulate='num=%d' % nsim, depth=16, workers=1, seed=ctx.seed + 1)
@@ -261,7 +316,7 @@ def run(ctx):
         replay_behaviour(ctx, b['h'], 'simulate')
         ops |= {h['op'] for h in b['h']}
         ncompile2 += sum(1 for h in b['h'] if h['op'] == 'compile_params') >= 2
-    if len(ops) < 11 or ncompile2 < nsim // 4:
+    if len(ops) < 12 or ncompile2 < nsim // 4:
         raise Machinery('simulation does not cover the calls: %r, %d behaviours with two compiles' % (sorted(ops), ncompile2))
     ctx.traces += nb + len(sims)
     ctx.add_sample(dict(behaviour=[{k: v for k, v in h.items() if k != 'post'} for h in sims[0]['h']]))
